@@ -85,3 +85,11 @@ package generic
 // ---- C07: closing a driver closes the channel (and with it the transport) on every path --------------------------------
 //@ func (*Driver).Close [C07]
 //@   ensures #channel-closed-even-if-on-close-fails implClosed
+
+//@ func (*Driver).GetPrompt
+//@   noverify
+//@   modifies wire, rd, quiet, alloc(), all(util.Queue.queue), all(util.Queue.depth)
+//@   ensures result.1 != nil ==> result.0 == ""
+//@ func (*Driver).SendCommandsFromFile
+//@   noverify
+//@   modifies sent, alloc(), optlog
